@@ -188,6 +188,10 @@ func (lalr *LALR1) CaclIncludeRelation(tr int) []Relation {
 		for Dot, sycheck := range r.RighPart {
 			if sy == sycheck && lalr.seqenceCanEpsilon(r.RighPart[Dot+1:]) {
 				for _, q := range lalr.fechStateNumber(index) {
+					// p' --beta--> p must hold, not just "p' has an item of the rule"
+					if end, ok := lalr.walkPath(q, r.RighPart[:Dot]); !ok || end != lalr.trans[tr].q {
+						continue
+					}
 					if to_index, err := lalr.fetchTransIndex(q, int(LeftSy.ID)); err == nil {
 						res = append(res, Relation{x: tr, y: to_index})
 					}
@@ -217,11 +221,14 @@ func (lalr *LALR1) CalcLookbacks() []Relation {
 		trIndex := tr.Index
 		ruleIndex := tr.sym_or_rule & Mask
 		leftPart := lalr.G.ProductoinRules[ruleIndex].LeftPart
+		rightPart := lalr.G.ProductoinRules[ruleIndex].RighPart
 		for tr_2 := range lalr.DRSet {
 			SyIndex := lalr.trans[tr_2].sym_or_rule
 			if SyIndex == leftPart.ID {
-				// trIndex lookback tr2
-				res = append(res, Relation{x: trIndex, y: tr_2})
+				// trIndex lookback tr2 only if p --w--> q
+				if end, ok := lalr.walkPath(lalr.trans[tr_2].q, rightPart); ok && end == tr.q {
+					res = append(res, Relation{x: trIndex, y: tr_2})
+				}
 			}
 		}
 	}
